@@ -117,6 +117,29 @@ def _same(a, b):
     return a is b
 
 
+class Fork:
+    """returned by a model that needs case analysis: alts = [(cond, thunk)], thunk(ex, st, tr) -> value, where `tr` maps a
+    node of the pre-fork state to its copy in `st`"""
+
+    def __init__(self, alts):
+        self.alts = alts
+
+
+class Inline:
+    """returned by a model: run `body` with `args` as the call's implementation"""
+
+    def __init__(self, body, args, callee):
+        self.body, self.args, self.callee = body, args, callee
+
+
+class Wrap(Inline):
+    """inline call whose result must be post-processed (e.g. wrapped in Some) - implemented by a synthetic continuation"""
+
+    def __init__(self, inl, post):
+        Inline.__init__(self, inl.body, inl.args, inl.callee)
+        self.post = post
+
+
 class Unsupported(Exception):
     pass
 
@@ -378,12 +401,14 @@ class Executor:
         if isinstance(val, Node):
             c = val.clone()
             node.val, node.kids = c.val, c.kids
+            node.variant = c.variant
             if node.ty is None:
                 node.ty = c.ty
             # lazily materialised children of the copy must keep the *source* names
             self._rename(node, val.name)
         else:
             node.val, node.kids = val, {}
+            node.variant = None
 
     def _rename(self, node, name):
         node.name = name
@@ -689,7 +714,7 @@ class Executor:
         s.pop()
         return r != z3.unsat
 
-    def _fork_state(self, st):
+    def _fork_state(self, st, want_tr=False):
         memo = {}
         new_mem = {}
 
@@ -706,7 +731,16 @@ class Executor:
             return n
         for k, v in st["mem"].items():
             new_mem[k] = cl(v)
-        return {"mem": new_mem, "names": dict(st["names"]), "events": list(st["events"]), "pc": list(st["pc"]), "nframes": st["nframes"]}
+        st2 = {"mem": new_mem, "names": dict(st["names"]), "events": list(st["events"]), "pc": list(st["pc"]), "nframes": st["nframes"]}
+        if want_tr:
+            def tr(x):
+                if isinstance(x, Node):
+                    return cl(x)
+                if isinstance(x, Ptr):
+                    return Ptr(cl(x.node))
+                return x
+            return st2, tr
+        return st2
 
     def _explore(self, st, fid, body, bb, visits, out, cont):
         """cont: continuation for inlined calls: (caller_fid, caller_body, dest_place, return_bb, caller_visits, outer_cont)"""
@@ -745,9 +779,12 @@ class Executor:
                     if cont is None:
                         out.append(Path("return", list(st["pc"]), retnode, list(st["events"]), frame=st))
                         return
-                    cfid, cbody, cdest, cret, cvis, ccont = cont
+                    cfid, cbody, cdest, cret, cvis, ccont, cpost = cont
+                    rv = self.read_node(retnode)
+                    if cpost is not None:
+                        rv = cpost(self, rv)
                     if cdest is not None:
-                        self.write(self.resolve(st, cfid, cbody, cdest), self.read_node(retnode))
+                        self.write(self.resolve(st, cfid, cbody, cdest), rv)
                     if cret is None:
                         out.append(Path("diverge", list(st["pc"]), None, list(st["events"]), "inlined callee has no return target"))
                         return
@@ -817,6 +854,217 @@ class Executor:
     def _fork_cont(self, cont):
         return cont  # continuation data is immutable (visits dicts are copied on use)
 
+    def _inline(self, st, fid, body, bb, t, callee, cb, argvals, visits, out, cont, post=None):
+        ctx = self.ctx
+        _, dest, _c, args, ret_bb, raw = t
+        nf = st["nframes"]
+        st["nframes"] += 1
+        st["names"][nf] = f"{st['names'][fid]}>{cb.name.split('::')[-1]}{nf}"
+        ctx.encoded_bodies.add(cb.name)
+        params = cb.params
+        vals = argvals
+        if len(params) != len(vals) and len(params) == 2 and re.search(r"as Fn(Once|Mut)?<", callee):
+            # closure call: (closure, (args...)) -> spread the tuple
+            tup = vals[1]
+            spread = []
+            if isinstance(tup, Node):
+                i = 0
+                while i in tup.kids:
+                    spread.append(self.read_node(tup.kids[i]))
+                    i += 1
+            vals = [vals[0]] + spread
+        for (pidx, pty), v in zip(params, vals):
+            n = Node(f"{st['names'][nf]}_{pidx}", pty)
+            self.write(n, v)
+            st["mem"][(nf, pidx)] = n
+        st["events"].append(Event("inline", callee, argvals, list(st["pc"]), (body.name, bb), None, body.name, bb))
+        self._explore(st, nf, cb, cb.order[0], visits, out, (fid, body, dest, ret_bb, visits, cont, post))
+        return "handled"
+
+    def _finish(self, st, fid, body, bb, t, callee, argvals, r, visits, out, cont):
+        """complete a modelled call whose result is a value, a Fork of alternatives, or an Inline request"""
+        _, dest, _c, args, ret_bb, raw = t
+        if isinstance(r, Fork):
+            feas = [(c, th) for c, th in r.alts if self.feasible(st["pc"] + [c])]
+            if not feas:
+                return "handled"
+            for c, th in feas[1:]:
+                st2, tr = self._fork_state(st, want_tr=True)
+                st2["pc"].append(c)
+                try:
+                    v2 = th(self, st2, tr)
+                except Unsupported as e:
+                    out.append(Path("unsupported", list(st2["pc"]), None, list(st2["events"]), f"{e} @ {body.name}:{bb}"))
+                    continue
+                res = self._finish(st2, fid, body, bb, t, callee, [tr(a) for a in argvals], v2, visits, out, cont)
+                if res == "handled":
+                    continue
+                if res is None:
+                    out.append(Path("diverge", list(st2["pc"]), None, list(st2["events"]), "diverging modelled call"))
+                else:
+                    self._explore(st2, fid, body, res, visits, out, cont)
+            c, th = feas[0]
+            st["pc"].append(c)
+            r = th(self, st, lambda x: x)
+            return self._finish(st, fid, body, bb, t, callee, argvals, r, visits, out, cont)
+        if isinstance(r, Inline):
+            return self._inline(st, fid, body, bb, t, r.callee, r.body, r.args, visits, out, cont, post=getattr(r, "post", None))
+        st["events"].append(Event("call", callee, argvals, list(st["pc"]), (body.name, bb), r, body.name, bb))
+        if isinstance(r, tuple) and r and r[0] == "panic":
+            if self.feasible(st["pc"] + [r[1]]):
+                out.append(Path("panic", list(st["pc"]) + [r[1]], None, list(st["events"]), f"modelled panic in {callee[:60]}"))
+            st["pc"].append(z3.Not(r[1]))
+            if not self.feasible(st["pc"]):
+                return "handled"
+            r = r[2]
+        if dest is not None and r is not None:
+            self.write(self.resolve(st, fid, body, dest), r)
+        return ret_bb
+
+    # ---------------------------------------------------------------- Option / Result combinators
+    def closure_body(self, f):
+        """body of a closure value (an aggregate whose type is `{closure@file:line:col: line:col}`), or None"""
+        ty = None
+        if isinstance(f, Node):
+            ty = f.ty
+        if isinstance(f, Ptr):
+            ty = f.node.ty
+        if isinstance(f, Opaque):
+            ty = str(f.term)      # zero-sized closure passed as a constant: `const ZeroSized: {closure@..}`
+        if not ty:
+            return None
+        m = re.search(r"\{closure@[^}]*\}", ty)
+        if not m:
+            return None
+        key = m.group(0)
+        idx = getattr(self.ctx, "_closure_idx", None)
+        if idx is None:
+            idx = {}
+            for b in self.ctx.bodies.values():
+                if b.params:
+                    mm = re.search(r"\{closure@[^}]*\}", b.params[0][1] or "")
+                    if mm and "{closure#" in b.name.rsplit("::", 1)[-1]:
+                        idx.setdefault(mm.group(0), b)
+            self.ctx._closure_idx = idx
+        return idx.get(key)
+
+    def mk_variant(self, ty, vidx, vname, payload=None):
+        n = Node(self.ctx.fresh_name(ty.lower()), ty)
+        d = Node(n.name + ".discr", "isize")
+        d.val = z3.BitVecVal(vidx, 64)
+        n.kids["discr"] = d
+        if payload is not None:
+            k = Node(f"{n.name}.{vname}:0", None)
+            self.write(k, payload)
+            n.kids[(vname, 0)] = k
+        return n
+
+    def apply(self, f, args, callee):
+        """call a function value: closures are inlined, anything else is an uninterpreted application"""
+        cb = self.closure_body(f)
+        if cb is not None:
+            return Inline(cb, [f] + list(args), callee)
+        terms = [to_term(f)] + [to_term(a) for a in args]
+        fn = self.func("apply", [x.sort() for x in terms], OBJ)
+        return Opaque(fn(*terms))
+
+    def combinator(self, st, callee, argvals, dest_ty):
+        c = callee
+        # strip trailing generic arguments of the method
+        base = c
+        if base.endswith(">"):
+            # strip one trailing `::<...>` group (method generics), balanced
+            depth, j = 0, len(base) - 1
+            while j >= 0:
+                if base[j] == ">" and (j == 0 or base[j - 1] != "-"):
+                    depth += 1
+                elif base[j] == "<":
+                    depth -= 1
+                    if depth == 0:
+                        break
+                j -= 1
+            if j >= 2 and base[j - 2:j] == "::":
+                base = base[:j - 2]
+        m = re.match(r"^(?:std::option::|core::option::)?Option::<.*>::(\w+)$", base)
+        kind = "Option" if m else None
+        if not m:
+            m = re.match(r"^(?:std::result::|core::result::)?Result::<.*>::(\w+)$", base)
+            kind = "Result" if m else None
+        if not m or not argvals:
+            return NotImplemented
+        meth = m.group(1)
+        x = argvals[0]
+        byref = False
+        if isinstance(x, Ptr):
+            x = self.read_node(x.node)
+            byref = True
+        if not isinstance(x, Node):
+            return NotImplemented
+        d = self.discr_of(x)
+        if kind == "Option":
+            is_some, is_none = d == 1, d == 0
+            pay = lambda ex, xx: ex.read_node(ex.child(xx, ("Some", 0), None))
+            some = lambda ex, v: ex.mk_variant("Option", 1, "Some", v)
+            none = lambda ex: ex.mk_variant("Option", 0, "None")
+            if meth in ("is_some", "is_none"):
+                return is_some if meth == "is_some" else is_none
+            if meth in ("unwrap", "expect"):
+                return ("panic", is_none, pay(self, x))
+            if meth in ("unwrap_or",):
+                return Fork([(is_some, lambda ex, st_, tr: pay(ex, tr(x))), (is_none, lambda ex, st_, tr: tr(argvals[1]))])
+            if meth == "map":
+                def sm(ex, st_, tr):
+                    r = ex.apply(tr(argvals[1]), [pay(ex, tr(x))], callee)
+                    return Wrap(r, lambda ex2, v: some(ex2, v)) if isinstance(r, Inline) else some(ex, r)
+                return Fork([(is_some, sm), (is_none, lambda ex, st_, tr: none(ex))])
+            if meth == "and_then":
+                return Fork([(is_some, lambda ex, st_, tr: ex.apply(tr(argvals[1]), [pay(ex, tr(x))], callee)), (is_none, lambda ex, st_, tr: none(ex))])
+            if meth == "map_or":
+                return Fork([(is_some, lambda ex, st_, tr: ex.apply(tr(argvals[2]), [pay(ex, tr(x))], callee)), (is_none, lambda ex, st_, tr: tr(argvals[1]))])
+            if meth == "ok_or":
+                return Fork([(is_some, lambda ex, st_, tr: ex.mk_variant("Result", 0, "Ok", pay(ex, tr(x)))),
+                             (is_none, lambda ex, st_, tr: ex.mk_variant("Result", 1, "Err", tr(argvals[1])))])
+            if meth in ("as_ref", "as_mut", "as_deref", "as_deref_mut"):
+                def ar(ex, st_, tr):
+                    xx = tr(x)
+                    return some(ex, Ptr(ex.child(xx, ("Some", 0), None)))
+                return Fork([(is_some, ar), (is_none, lambda ex, st_, tr: none(ex))])
+            if meth == "take" and byref:
+                def tk(ex, st_, tr):
+                    xx = tr(x)
+                    v = xx.clone()
+                    nn = none(ex)
+                    xx.val, xx.kids, xx.variant = nn.val, nn.kids, nn.variant
+                    return v
+                return tk(self, st, lambda q: q)
+            return NotImplemented
+        # Result
+        is_ok, is_err = d == 0, d == 1
+        okp = lambda ex, xx: ex.read_node(ex.child(xx, ("Ok", 0), None))
+        errp = lambda ex, xx: ex.read_node(ex.child(xx, ("Err", 0), None))
+        if meth in ("is_ok", "is_err"):
+            return is_ok if meth == "is_ok" else is_err
+        if meth in ("unwrap", "expect"):
+            return ("panic", is_err, okp(self, x))
+        if meth == "ok":
+            return Fork([(is_ok, lambda ex, st_, tr: ex.mk_variant("Option", 1, "Some", okp(ex, tr(x)))), (is_err, lambda ex, st_, tr: ex.mk_variant("Option", 0, "None"))])
+        if meth == "err":
+            return Fork([(is_err, lambda ex, st_, tr: ex.mk_variant("Option", 1, "Some", errp(ex, tr(x)))), (is_ok, lambda ex, st_, tr: ex.mk_variant("Option", 0, "None"))])
+        if meth == "map_err":
+            def me(ex, st_, tr):
+                r = ex.apply(tr(argvals[1]), [errp(ex, tr(x))], callee)
+                return Wrap(r, lambda ex2, v: ex2.mk_variant("Result", 1, "Err", v)) if isinstance(r, Inline) else ex.mk_variant("Result", 1, "Err", r)
+            return Fork([(is_ok, lambda ex, st_, tr: ex.mk_variant("Result", 0, "Ok", okp(ex, tr(x)))), (is_err, me)])
+        if meth == "map":
+            def mo(ex, st_, tr):
+                r = ex.apply(tr(argvals[1]), [okp(ex, tr(x))], callee)
+                return Wrap(r, lambda ex2, v: ex2.mk_variant("Result", 0, "Ok", v)) if isinstance(r, Inline) else ex.mk_variant("Result", 0, "Ok", r)
+            return Fork([(is_ok, mo), (is_err, lambda ex, st_, tr: ex.mk_variant("Result", 1, "Err", errp(ex, tr(x))))])
+        if meth == "and_then":
+            return Fork([(is_ok, lambda ex, st_, tr: ex.apply(tr(argvals[1]), [okp(ex, tr(x))], callee)),
+                         (is_err, lambda ex, st_, tr: ex.mk_variant("Result", 1, "Err", errp(ex, tr(x))))])
+        return NotImplemented
+
     # ---------------------------------------------------------------- calls
     def call(self, st, fid, body, bb, t, visits, out, cont):
         ctx = self.ctx
@@ -829,6 +1077,10 @@ class Executor:
             st["events"].append(ev)
             out.append(Path("panic", list(st["pc"]), None, list(st["events"]), f"call {callee[:80]} @ {body.name}:{bb}"))
             return "handled"
+        # generic Option / Result combinators (closures are inlined)
+        r = self.combinator(st, callee, argvals, dest_ty)
+        if r is not NotImplemented:
+            return self._finish(st, fid, body, bb, t, callee, argvals, r, visits, out, cont)
         # models
         for rx, fn in ctx.models:
             if re.search(rx, callee):
@@ -836,41 +1088,19 @@ class Executor:
                 if r is NotImplemented:
                     continue
                 ctx.used_models.add(rx)
-                st["events"].append(Event("call", callee, argvals, list(st["pc"]), (body.name, bb), r, body.name, bb))
-                if isinstance(r, tuple) and r and r[0] == "panic":
-                    out.append(Path("panic", list(st["pc"]) + [r[1]], None, list(st["events"]), f"modelled panic in {callee[:60]}"))
-                    st["pc"].append(z3.Not(r[1]))
-                    r = r[2]
-                if dest is not None and r is not None:
-                    self.write(self.resolve(st, fid, body, dest), r)
-                return ret_bb
+                return self._finish(st, fid, body, bb, t, callee, argvals, r, visits, out, cont)
         # inline
         for resolver in ctx.inline:
             cb = resolver(callee, argvals)
             if cb is not None:
-                nf = st["nframes"]
-                st["nframes"] += 1
-                st["names"][nf] = f"{st['names'][fid]}>{cb.name.split('::')[-1]}{nf}"
-                ctx.encoded_bodies.add(cb.name)
-                params = cb.params
-                vals = argvals
-                if len(params) != len(vals) and len(params) == 2 and re.search(r"as Fn(Once|Mut)?<", callee):
-                    # closure call: (closure, (args...)) -> spread the tuple
-                    tup = vals[1]
-                    spread = []
-                    if isinstance(tup, Node):
-                        i = 0
-                        while i in tup.kids:
-                            spread.append(self.read_node(tup.kids[i]))
-                            i += 1
-                    vals = [vals[0]] + spread
-                for (pidx, pty), v in zip(params, vals):
-                    n = Node(f"{st['names'][nf]}_{pidx}", pty)
-                    self.write(n, v)
-                    st["mem"][(nf, pidx)] = n
-                st["events"].append(Event("inline", callee, argvals, list(st["pc"]), (body.name, bb), None, body.name, bb))
-                self._explore(st, nf, cb, cb.order[0], visits, out, (fid, body, dest, ret_bb, visits, cont))
-                return "handled"
+                # no recursive / unboundedly deep inlining: such calls stay uninterpreted
+                chain, c2 = [body.name], cont
+                while c2 is not None:
+                    chain.append(c2[1].name)
+                    c2 = c2[5]
+                if cb.name in chain or len(chain) >= 14:
+                    break
+                return self._inline(st, fid, body, bb, t, callee, cb, argvals, visits, out, cont)
         # uninterpreted: result is a function of the argument terms; &mut arguments' targets are havocked
         ctx.uninterpreted.add(re.sub(r"::<.*", "", callee)[:120])
         terms = [to_term(v) for v in argvals]
